@@ -38,6 +38,15 @@ def ja_atoms(small=False, odd_names=False):
     return out
 
 
+def odd_atoms():
+    """atoms whose names / feature values use characters beyond letters and digits (treebank tags such as PRP$, -LRB-, N-num, primes,
+    non-ASCII names); none of them contains a bracket, a slash or a blank"""
+    A, U, T = Atom, UnaryFeature, TernaryFeature
+    return [A('PRP$'), A('N-num'), A("N'"), A('S', U('b+')), A('S', U('wq-em')), A('-LRB-'), A('N#1'), A('a&b'), A('%'), A('\u540d\u8a5e'),
+            A('N', U('\u65e5')), A('N~'), A('N@'), A('N{}'), A('N_1'), A('!?'), A('S', U("d'")), A('NP', T(('case', 'ga-2'), ('mod', 'nm+'), ('fin', "f'"))),
+            A('N"q'), A('$'), A('`'), A('^'), A('=')]
+
+
 def universe(atoms, k, slashes='/\\'):
     """all categories with <= k atoms, ordered by size then generation order (simplest first)"""
     by = [None, list(atoms)]
